@@ -894,6 +894,43 @@ class Fragment:
         self.text = self.text[:mm.start()] + new_sig + self.text[ob:]
         self.note('V-SPEC', 1, f'result named {name}')
 
+    def deref_patterns(self):
+        """V-PAT: a match arm `Some(&x) => E` (by-copy deref pattern; Verus has no ref patterns) ->
+        `Some(__p_x) => { let x = *__p_x; E }` (E verbatim)."""
+        cnt = 0
+        while True:
+            s = self._src()
+            mm = next((m for m in re.finditer(r'\bSome\(&(\w+)\)\s*=>\s*', self.text) if s.mask[m.start()]), None)
+            if not mm:
+                break
+            x = mm.group(1)
+            i = mm.end()
+            if self.text[i] == '{':
+                e = s.match_close(i) + 1
+                body = self.text[i:e]
+                comma = ''
+            else:
+                depth = 0
+                e = i
+                while e < len(self.text):
+                    ch = self.text[e]
+                    if s.mask[e]:
+                        if ch in '([{':
+                            depth += 1
+                        elif ch in ')]}':
+                            if depth == 0:
+                                break
+                            depth -= 1
+                        elif ch == ',' and depth == 0:
+                            break
+                    e += 1
+                body = self.text[i:e].rstrip()
+                comma = ''
+            self.text = self.text[:mm.start()] + f"Some(__p_{x}) => {{ let {x} = *__p_{x}; {body} }}" + comma + self.text[e:]
+            cnt += 1
+        self.note('V-PAT', cnt, '`Some(&x) => E` -> `Some(__p_x) => { let x = *__p_x; E }` (Verus has no ref patterns; E verbatim)')
+        return cnt
+
     def loops(self):
         """[(kw_idx, body_open_idx)] of while/for/loop headers inside the fn body, in source order."""
         s = self._src()
